@@ -56,6 +56,25 @@ Theorem C19_uses_only_supplied_rng : uses_only_supplied_rng pointsets_functions 
 Proof. exact pointsets_use_only_supplied_rng. Qed.
 Print Assumptions C19_uses_only_supplied_rng.
 
+(* OBSERVATION outside the property (termination is not claimed; reported to the lead; the harness counts such
+   calls as skipped): on the 1 x 1 grid, when the first sample is closer than r to all four corners of the domain
+   (e.g. x0 = (1/2, 1/2)), every candidate at distance >= r from it — and the candidates are x0 + disk(r, 2r) — lies
+   outside the domain, line 37 `continue` skips the removal at i == k - 1, and the while loop never ends:
+   bluenoise(k, 1, 1, rng) does not return for such an x0, whatever k and the stream are. *)
+Theorem C19_bluenoise_returns_on_unit_grid_refuted : forall (sc : Z) (k : nat) (x0 : pt) (its : list (nat * list pt)) (st : state),
+  0 < sc ->
+  (d2 x0 (0, 0) < sc * sc /\ d2 x0 (sc, 0) < sc * sc /\ d2 x0 (0, sc) < sc * sc /\ d2 x0 (sc, sc) < sc * sc) ->
+  (forall it c, In it its -> In c (snd it) -> sc * sc <= d2 c x0) ->
+  run sc 1 1 k (init x0) its = Some st ->
+  st = init x0 /\ finished st = false.
+Proof. exact bluenoise_unit_grid_never_finishes. Qed.
+Print Assumptions C19_bluenoise_returns_on_unit_grid_refuted.
+
+Example C19_unit_grid_nonvacuous :
+  (d2 (1, 1) (0, 0) < 2 * 2 /\ d2 (1, 1) (2, 0) < 2 * 2 /\ d2 (1, 1) (0, 2) < 2 * 2 /\ d2 (1, 1) (2, 2) < 2 * 2) /\
+  run 2 1 1 3 (init (1, 1)) [(0%nat, [(3, 1); (1, 3); (-1, 1)]); (0%nat, [(1, -1); (3, 3); (4, 1)])] = Some (init (1, 1)).
+Proof. vm_compute. repeat split; reflexivity. Qed.
+
 (* ------------------------------------------------------------------ non-vacuity *)
 (* a run on a 3 x 2 grid (nx <> ny), k = 2, scale 4: accepts (5/4... ) one candidate, rejects a close one,
    skips one outside, removes an index; hypotheses of the theorems above hold and the output is not trivial *)
